@@ -230,6 +230,12 @@ def pred_case(pred, shape, cfg, kind, ty=BOOL, rel=None):
         a = Buf('a', ty, n, 'in'); b = Buf('b', ty, n, 'in'); bufs = [a, b]
         decl = town(ty, shape, 'a') + ' ' + town(ty, shape, 'b') + ' Tensor<bool,%s> X = A %s B;' % (dims(shape), CMP_CPP[rel])
         x = 'X'; xs = [E.inp(a, k).cmp(rel, E.inp(b, k)) for k in range(n)]
+    elif kind == 'cmp-trans':    # boolean expression over an operand that needs evaluation (lazy transpose): trans(A) rel B
+        M_, N_ = shape
+        a = Buf('a', ty, n, 'in'); b = Buf('b', ty, n, 'in'); bufs = [a, b]
+        decl = town(ty, (N_, M_), 'a') + ' ' + town(ty, (M_, N_), 'b')
+        x = 'trans(A) %s B' % CMP_CPP[rel]
+        xs = [E.inp(a, j * M_ + i).cmp(rel, E.inp(b, i * N_ + j)) for i in range(M_) for j in range(N_)]
     else:
         raise ValueError(kind)
     body = '    %s\n    r[0] = %s(%s);' % (decl, pred, x)
@@ -525,6 +531,7 @@ def cases(tier, seed):
                         if full or pred != 'none_of':
                             out.append(pred_case(pred, (2, 3), cfg, 'cmp-scalar', ty, rels[(j + 3) % 6]))
                             out.append(pred_case(pred, (W + 2,), cfg, 'cmp-eval', ty, rels[(j + 1) % 6]))
+                            out.append(pred_case(pred, (2, 3), cfg, 'cmp-trans', ty, rels[(j + 2) % 6]))
                     if ty.kind == 'int':
                         for n in ((V + 1,) if not full else (1, 3, V + 1)):
                             out.append(isequal_case(ty, (n,), cfg, 'own'))
